@@ -35,6 +35,7 @@ struct arena {
         uint16_t inflight[512];
         uint64_t primary_code_addr; /* address of a library function in the primary */
         uint64_t helper_code_addr;  /* written by ... (private view: reported through exit status instead) */
+        int cont_unit;              /* unit of the most recent history submit: the continuation jobs go to the same lane manager */
         jbuf_t jb[MAXOPS + 8];
 };
 static struct arena *A;
@@ -123,6 +124,7 @@ viol(const char *site, const char *detail, int id, long x)
         rec_i("x", x);
         rec_end();
 }
+static IMB_MGR *fresh[NVARIANTS]; /* pristine managers of this process (handler comparison, solo results of continuation jobs) */
 static int
 outputs_ok(int id)
 {
@@ -132,10 +134,15 @@ outputs_ok(int id)
 }
 
 /* recovery: re-attach, flush everything, verify against the reference FIFO, then 3 follow-up jobs */
+/* cont = 1: after the re-attach the application carries on where it was - three more jobs go to the lane manager the
+ * history used last BEFORE anything is flushed (they must not displace or disturb a parked job), then everything is
+ * flushed; expected FIFO = jobs in flight at the crash point followed by the three continuation jobs            */
+#define CONT0 (MAXOPS + 3)
 static int
-recover(void)
+recover(int cont)
 {
         int bad = 0;
+        int fvx = -1;
         IMB_MGR *m = imb_set_pointers_mb_mgr(A->mgr, A->flags, 0);
         if (!m) {
                 viol("reattach-failed", "imb_set_pointers_mb_mgr returned NULL", -1, 0);
@@ -148,9 +155,9 @@ recover(void)
                 for (int q = 0; q < NVARIANTS; q++)
                         if ((uint32_t) VARIANTS[q].arch == m->used_arch && (uint32_t) VARIANTS[q].type == m->used_arch_type)
                                 fv = q;
-                static IMB_MGR *fresh[NVARIANTS];
                 if (fv >= 0 && !fresh[fv])
                         fresh[fv] = mgr_new(fv);
+                fvx = fv;
                 if (fv >= 0 && fresh[fv]) {
                         const size_t lo = offsetof(IMB_MGR, get_next_job), hi = offsetof(IMB_MGR, earliest_job);
                         const uint8_t *pa = (const uint8_t *) m + lo, *pb = (const uint8_t *) fresh[fv] + lo;
@@ -168,29 +175,70 @@ recover(void)
                      X_QUEUE_SIZE(m));
                 bad = 1;
         }
-        int n = 0;
+        int n = 0, ntot = A->n_inflight;
         IMB_JOB *r;
-        while ((r = X_FLUSH(m))) {
+        static uint16_t want[512 + 8];
+        memcpy(want, A->inflight, sizeof(uint16_t) * (size_t) A->n_inflight);
+        if (cont && fvx >= 0 && fresh[fvx] && A->cont_unit >= 0) {
+                for (int k = 0; k < 3; k++) { /* solo results on the pristine manager of this process */
+                        int id = CONT0 + k;
+                        inputs(id, A->cont_unit, (k + 1) & 3);
+                        IMB_JOB *j = IMB_GET_NEXT_JOB(fresh[fvx]);
+                        item_t it;
+                        mk(&it, id);
+                        alg_fill(fresh[fvx], j, &it);
+                        IMB_JOB *q = IMB_SUBMIT_JOB(fresh[fvx]);
+                        if (!q)
+                                q = IMB_FLUSH_JOB(fresh[fvx]);
+                        if (!q || q->status != IMB_STATUS_COMPLETED)
+                                viol("alone-failed", "valid continuation job failed when processed alone", id, q ? q->status : -1);
+                        jbuf_t *b = &A->jb[id];
+                        memcpy(b->exp_dst, b->dst, sizeof b->dst);
+                        memcpy(b->exp_tag, b->tag, sizeof b->tag);
+                        memcpy(b->exp_src, b->src, sizeof b->src);
+                        inputs(id, A->cont_unit, (k + 1) & 3);
+                        want[ntot++] = (uint16_t) id;
+                }
+        } else
+                cont = 0;
+        int next_cont = 0;
+        for (;;) {
+                if (cont && next_cont < 3) { /* carry on submitting before anything is flushed */
+                        int id = CONT0 + next_cont++;
+                        IMB_JOB *j = X_GET_NEXT(m);
+                        item_t it;
+                        mk(&it, id);
+                        alg_fill(m, j, &it);
+                        j->user_data = (void *) (long) (id + 1);
+                        r = X_SUBMIT(m);
+                        if (!r)
+                                continue;
+                } else {
+                        r = X_FLUSH(m);
+                        if (!r)
+                                break;
+                }
                 int id = (int) (long) r->user_data - 1;
-                if (n >= A->n_inflight) {
-                        viol("extra-job", "flush handed back more jobs than were in flight", id, n);
+                if (n >= ntot) {
+                        viol("extra-job", "more jobs handed back than were in flight", id, n);
                         bad = 1;
                         break;
                 }
-                if (id != A->inflight[n]) {
-                        viol("order", "job handed back out of order / wrong job after re-attach", id, A->inflight[n]);
+                if (id != want[n]) {
+                        viol("order", "job handed back out of order / wrong job after re-attach", id, want[n]);
                         bad = 1;
                 } else if (r->status != IMB_STATUS_COMPLETED) {
                         viol("status", "in-flight job not COMPLETED after re-attach + flush", id, r->status);
                         bad = 1;
                 } else if (!outputs_ok(id)) {
-                        viol("corrupted", "in-flight job completed with outputs different from the solo result", id, 0);
+                        viol(id >= CONT0 ? "continuation-corrupted" : "corrupted",
+                             "job completed after re-attach with outputs different from the solo result", id, 0);
                         bad = 1;
                 }
                 n++;
         }
-        if (n < A->n_inflight) {
-                viol("lost-job", "fewer jobs handed back than were in flight at the crash point", A->inflight[n], n);
+        if (n < ntot) {
+                viol("lost-job", "fewer jobs handed back than were in flight at the crash point", want[n], n);
                 bad = 1;
         }
         /* follow-up jobs: ids MAXOPS.. prepared by the primary (inputs + expectations) */
@@ -223,7 +271,7 @@ helper_main(int fd)
         if (A == MAP_FAILED)
                 DIE("helper mmap");
         int same_addr = A->primary_code_addr == (uint64_t) (uintptr_t) &init_mb_mgr_sse;
-        int bad = recover();
+        int bad = recover(0);
         return (bad ? 1 : 0) | (same_addr ? 2 : 0);
 }
 
@@ -235,7 +283,7 @@ typedef struct {
 static hop_t H[MAXOPS];
 static int NH;
 static int thorough;
-static long long n_points, n_exec, n_fork, n_same, n_same_addr, inflight_total;
+static long long n_points, n_exec, n_fork, n_same, n_cont, n_same_addr, inflight_total;
 
 static void
 run_variant(int v)
@@ -285,6 +333,7 @@ run_variant(int v)
         m = imb_set_pointers_mb_mgr(A->mgr, VARIANTS[v].flags, 1);
         mgr_init(m, v);
         A->n_inflight = 0;
+        A->cont_unit = -1;
         size_t live = offsetof(struct arena, jb) + sizeof(jbuf_t) * (size_t) (njobs + 1);
         uint8_t *save = malloc(ASZ);
         id = 0;
@@ -312,6 +361,7 @@ run_variant(int v)
                                 alg_fill(m, j, &it);
                                 j->user_data = (void *) (long) (id + 1);
                                 A->inflight[A->n_inflight++] = (uint16_t) id;
+                                A->cont_unit = H[p].unit;
                                 id++;
                                 r = X_SUBMIT(m);
                         }
@@ -344,8 +394,12 @@ run_variant(int v)
                 /* (a) same process, arena restored afterwards */
                 memcpy(save, A, live);
                 g_mode = "same-process";
-                recover();
+                recover(0);
                 n_same++;
+                memcpy(A, save, live);
+                g_mode = "same-process-continue";
+                recover(1);
+                n_cont++;
                 memcpy(A, save, live);
                 m = (IMB_MGR *) A->mgr;
                 g_mode = "primary";
@@ -354,10 +408,10 @@ run_variant(int v)
                         fflush(stdout);
                         pid_t c = fork();
                         if (c == 0) {
-                                g_mode = "fork";
+                                g_mode = n_points & 1 ? "fork-continue" : "fork";
                                 if (mmap(BASE, ASZ, PROT_READ | PROT_WRITE, MAP_PRIVATE | MAP_FIXED, arena_fd, 0) == MAP_FAILED)
                                         _exit(9);
-                                _exit(recover() ? 1 : 0);
+                                _exit(recover((int) (n_points & 1)) ? 1 : 0);
                         }
                         int st;
                         waitpid(c, &st, 0);
@@ -402,7 +456,8 @@ variant_worker(long v, void *arg)
                 DIE("arena mmap at fixed address");
         run_variant((int) v);
         stat_add("variants_run", 1);
-        stat_add("evaluations", n_same + n_fork + n_exec);
+        stat_add("evaluations", n_same + n_cont + n_fork + n_exec);
+        stat_add("recoveries_that_continue_submitting", n_cont);
         stat_add("distinct_nontrivial", n_points);
         stat_add("crash_points", n_points);
         stat_add("recoveries_same_process", n_same);
@@ -477,7 +532,9 @@ main(int argc, char **argv)
         rec_begin("meta");
         rec_s("rule", "fault = crash after API call p of the history (every p; quick: every 3rd + lane-boundary points); recovery "
                       "in the same process, in a forked child and in a freshly exec'ed PIE copy mapping the arena at the same "
-                      "address; oracle = reference FIFO + solo outputs + 3 follow-up jobs");
+                      "address; oracle = reference FIFO + solo outputs + 3 follow-up jobs; 'continue' recoveries (same process at every point, every "
+                      "second forked one) submit three more jobs to the lane manager the history used last BEFORE flushing: FIFO = "
+                      "in-flight jobs then the continuation jobs, all with solo outputs");
         rec_end();
         stats_emit();
         return 0;
